@@ -262,6 +262,9 @@ pub fn run(ctx: &Ctx, rep: &mut Report) {
             ("distance", vec!["distance", "x.skf"]),
             ("merge", vec!["merge", "x.skf", "good.skf", "-o", "m"]),
             ("merge-second", vec!["merge", "good.skf", "x.skf", "-o", "m"]),
+            ("merge-third", vec!["merge", "good.skf", "good.skf", "x.skf", "-o", "m"]),
+            ("merge-alone", vec!["merge", "x.skf", "-o", "m"]),
+            ("merge-twice", vec!["merge", "x.skf", "x.skf", "-o", "m"]),
             ("delete", vec!["delete", "-s", "x.skf", "s1"]),
             ("weed", vec!["weed", "x.skf", "w.fa", "--min-freq", "0"]),
             ("weed-nothing-to-do", vec!["weed", "x.skf", "--min-freq", "0"]),
